@@ -70,6 +70,10 @@ let handle toks =
   | ["des_block_dec"; k; b] -> "OK " ^ show (x_des_block_dec (lst k) (lst b))
   | ["aes_block_enc"; k; b] -> "OK " ^ show (x_aes_block_enc (lst k) (lst b))
   | ["aes_block_dec"; k; b] -> "OK " ^ show (x_aes_block_dec (lst k) (lst b))
+  | ["draw"; stream; n] -> (match x_draw (lst stream) (nat n) with
+                            | Some (syms, rest) -> "OK " ^ show syms ^ " " ^ show rest | None -> "ERR ValueError")
+  | ["choices10"; stream] -> (match x_choices10 (lst stream) with
+                            | Some (ch, rest) -> "OK " ^ show ch ^ " " ^ show rest | None -> "ERR ValueError")
   | ["xor"; a; b] -> "OK " ^ show (x_xor (lst a) (lst b))
   | ["odd_parity"; v] -> "OK " ^ string_of_int (int_of_n (x_odd_parity (n_of_int (int_of_string v))))
   | ["apply_key_variant"; k; v] -> res show (x_apply_key_variant (lst k) (z_of_int (int_of_string v)))
